@@ -82,11 +82,17 @@ class ArrayV:
     def copy(self):
         return ArrayV(list(self.arrs), self.n, self.etid)
 
-def copyval(v):
+def copyval(v, memo=None):
     if isinstance(v, StructV):
         return v.copy()
     if isinstance(v, ArrayV):
         return v.copy()
+    if type(v).__name__ == 'JSObj':
+        # JavaScript objects are mutable records with identity: a state copy gets its own record, and two variables naming
+        # one object keep naming one object (memo)
+        if memo is None: return v.copy()
+        if id(v) not in memo: memo[id(v)] = v.copy()
+        return memo[id(v)]
     return v
 
 # string literals: one array constant per distinct literal, with ground facts
